@@ -137,7 +137,7 @@ PROPS["C05"] = dict(
     engines=[dict(bin="tracker", cases_quick=2000, cases_thorough=40000, profiles=["release"], profiles_thorough=["release", "dev"]),
              dict(bin="conc", cases_quick=240, cases_thorough=6000, profiles=["release"])],
     rule="conc: schedule-controlled threads (see C06) with tracker GC runs and GC-lock block probes (a gc started while an open() is parked between its two loads must wait), "
-         "watermark compared with the model after every step, oracle 'watermark <= every live snapshot instant'. tracker: case = random sequence of snapshot open (half the cases start with a snapshot of the fresh database, instant 0) / drop / writes "
+         "watermark compared with the model after every step, oracle 'watermark <= every live snapshot instant'. tracker: views are snapshots, clones of snapshots and iterators created from snapshots, dropped in any order, with writes / removes, memtable rotation + flush + queued compactions, major compactions in between; after every step every live view is read (point read, sometimes a full scan; iterators are advanced) and must show exactly the content it had at creation and never panic; open_snapshots() must equal the number of live views. case = random sequence of snapshot open (half the cases start with a snapshot of the fresh database, instant 0) / drop / writes "
          "(publish) / keyspace creation / tracker gc / pullup on a real database; after every step open_snapshots(), the GC watermark and "
          "the visible seqno are compared with the Lean tracker model, and the oracle 'watermark <= every live instant > 0' is checked. "
          "non-trivial = two nonces share an instant or a gc runs while a nonce is alive",
